@@ -22,7 +22,7 @@ fn main() {
             for &o in &opts {
                 for &g in &gcs {
                     let _ = aelys_backend::verif::take_call_windows();
-                    let r = run_program(p, o, g, budget, None);
+                    let (r, _code) = run_program_script(p, o, g, budget, None);
                     println!("{}\t{}\t{}:{}\t{}\t{}\t{}\t{}", i, o, g.0, g.1, r.class, esc(&r.output), esc(&r.value), esc(&r.detail));
                     // frame-pushing calls the compiler emitted, and those with a register in use above their window
                     let (calls, bad) = aelys_backend::verif::take_call_windows();
